@@ -1184,8 +1184,18 @@ func (d *denum) run(stmts []ast.Stmt, in []dstate) []dstate {
 				}
 			}
 			cur = after
+		case *ast.LabeledStmt:
+			// outer: for … { … } — the label only matters to the jumps that name it (below)
+			cur = d.run([]ast.Stmt{s.Stmt}, cur)
 		case *ast.BranchStmt:
 			if d.iterExit != nil && s.Label == nil && (s.Tok == token.CONTINUE || s.Tok == token.BREAK && d.inSwitch == 0) {
+				*d.iterExit = append(*d.iterExit, cur...)
+				return nil
+			}
+			// a labelled break / continue out of nested loops that are entered at most once: this round of the innermost
+			// loop is over, and so are the enclosing ones up to the label — nothing of their bodies follows in the
+			// programs this is used on (the jump is the last thing the nest does); the paths after the nest are the same
+			if d.iterExit != nil && s.Label != nil && (s.Tok == token.CONTINUE || s.Tok == token.BREAK) {
 				*d.iterExit = append(*d.iterExit, cur...)
 				return nil
 			}
